@@ -203,8 +203,49 @@ class Scenario:
         fmt = self.sc["fmt"]
         return {fmt, fmt + ".pickle"}
 
-    def durable(self, idxs, nvar):
-        """what a restart can find: per variation (rep, tokens, params, relative path) of a loadable
+    def durable(self, idxs, nvar, runner=None):
+        """what a restart can find: per variation (kind, (rep, tokens, params, relative path)).
+        The file a restart reads for a variation is asked from the library's PUBLIC helper
+        `runner.get_partial_results_filename(base, params_of_the_variation, folder)`, so neither the
+        naming scheme of the partial files nor that of temporary / scratch files is assumed; only if
+        that helper does not exist are the files identified by content (durable_by_content)."""
+        from pyphysim.simulations import runner as R
+        helper = getattr(R, "get_partial_results_filename", None)
+        if helper is None or runner is None:
+            return self.durable_by_content(idxs, nvar)
+        try:
+            plist = runner.params.get_unpacked_params_list()
+            folder = runner.partial_results_folder
+            paths = {i: helper(self.sc["fmt"], plist[pos], folder) for pos, i in enumerate(idxs)}
+        except Exception:  # noqa
+            return self.durable_by_content(idxs, nvar)
+        out = {}
+        for i in idxs:
+            full = os.path.abspath(paths[i])
+            kind, st = "absent", None
+            if os.path.exists(full):
+                try:
+                    with open(full, "rb") as f:
+                        obj = pickle.load(f)
+                except Exception:  # noqa
+                    obj = None
+                    if full.endswith(".json"):
+                        try:
+                            from pyphysim.simulations.results import SimulationResults
+                            obj = SimulationResults.load_from_file(full)
+                        except Exception:  # noqa
+                            obj = None
+                try:
+                    st = (int(obj.current_rep), list(obj["v"][-1].get_result_accumulated_values()), obj.params,
+                          os.path.relpath(full, self.fs.root))
+                    kind = "complete"
+                except Exception:  # noqa
+                    kind, st = "torn", None
+            out[i] = (kind, st)
+        return out
+
+    def durable_by_content(self, idxs, nvar):
+        """fallback of durable(): per variation (rep, tokens, params, relative path) of a loadable
         partial-results file.  Files are identified by CONTENT (every loadable results object in the
         scenario's directory other than the final results file, attributed to the variation its own
         parameters name), not by the name the library currently gives them.  An unloadable file is a
@@ -309,7 +350,7 @@ def execute(sc, ctx, chk):
                                       else {"b": [0, 1]}, unpacked)
                 nvar = len(vars_)
                 idxs = list(range(nvar)) if unpacked else [-1]
-                dur = S.durable(idxs, nvar)
+                dur = S.durable(idxs, nvar, runner)
                 for i in idxs:
                     paths.append(dur[i][0])
                 foreign = sc["kind"] == "foreign" and run_no >= 1
@@ -418,7 +459,7 @@ def judge_completed(sc, S, chk, case, runner, dur, idxs, rep_max, run_no):
         chk.fail(("final_file", "differs_from_runner_results"), case,
                  observed=[a.get_result_accumulated_values() for a in loaded["v"]], expected=[a.get_result_accumulated_values() for a in res["v"]])
     if sc["delete"]:
-        left = [st[3] for kind, st in S.durable(idxs, len(idxs)).values() if kind == "complete"]
+        left = [st[3] for kind, st in S.durable(idxs, len(idxs), runner).values() if kind == "complete"]
         if left:
             chk.fail(("delete_partial_results", "files_left"), case, observed=left, expected="[]")
 
